@@ -10,12 +10,21 @@ by ok_le / ok_eq.  "Caller's array unchanged" is an observation (bytes of the ar
 import itertools
 import math
 import types
+import warnings
 from fractions import Fraction
 
 import numpy as np
 
 from ..driver import model
-from ..runner import Stream
+from ..runner import CaseTimeout, Stream
+
+try:  # warm the import cache in the parent, before the workers are forked: an import interrupted by the per-case
+    # watchdog (loaded machine) would leave half-initialised modules behind and every later case of that worker would fail
+    with warnings.catch_warnings():  # (importing deephyper resets the warning filters; keep the caller's)
+        import deephyper.evaluator.callback  # noqa: F401
+        import deephyper.skopt.moo  # noqa: F401
+except Exception:  # a tree that cannot be imported is reported by the streams (exception:<Type>), not here
+    pass
 
 PROPERTY = "C12"
 LEVEL = "proof"
@@ -27,8 +36,9 @@ TRUSTED = [
     "that the rational does not depend on s (C12_scale)",
     "float -> integer transfer: fractions.Fraction(float) is exact; all coordinates of a case are multiplied by one common "
     "power of two",
-    "binary64 arithmetic of the implementation is exact on the lattice / dyadic (k/16) streams (all intermediate values "
-    "are dyadic with < 53 significant bits for <= 5 objectives); 1e-9 relative tolerance on the general-float stream",
+    "binary64 arithmetic of the implementation is exact on the lattice / highdim_ties (small integers, <= 7 objectives) and "
+    "dyadic (k/16, <= 5 objectives) streams: all intermediate values are dyadic with < 53 significant bits; 1e-9 relative "
+    "tolerance on the general-float stream (all terms of the sweep are non-negative, so the rounding error is ~ n * 2^-53 relative)",
     "the aliasing clause (caller's array unchanged) is a run-time observation: bytes/shape/dtype of the array object "
     "before and after the call",
 ]
@@ -37,8 +47,11 @@ ASSUMPTIONS = [
     "boundary); the code documents garbage for other inputs, the generators never produce them (ok_case guards every case)",
     "pointset of shape (n, d) with n >= 1, d >= 1 (a 1-D array of scalars is not a point set for this function); NaN/inf excluded",
 ]
-RULE = ("lattice: every set of <=k distinct points on {0..4}^m with ref=(4..4) (exhaustive where stated in the stream histogram, "
-        "seeded sample otherwise); dyadic/floats/forms/recorder: generated from the seed. non-trivial = at least 2 points and 2 objectives")
+RULE = ("lattice: sets of <=k distinct points on {0..4}^m, ref=(4..4) (translated for 2 cases in 4): quick = every set of <=3 points for m<=3, "
+        "every 1-point set and 3000 seeded 2-/3-point sets for m=4; thorough = every set of <=4 points for m<=2, <=3 points for m=3, <=2 points "
+        "for m=4, seeded samples of the 4-point sets (m=3) and the 3-/4-point sets (m=4). highdim_ties: 5-7 objectives on small integer ranges "
+        "(tied coordinates, shared projections, boundary points). dyadic/floats/input_forms/recorder: generated from the seed. "
+        "non-trivial = at least 2 points and 2 objectives")
 
 F_ND, F_SLICE, F_FAST, F_SPEC, F_CELLS, F_OKEXACT, F_OKCLOSE, F_OKLE, F_OKEQ, F_OKCASE = range(1201, 1211)
 
@@ -166,6 +179,8 @@ def check_set(case):
     res["sig"] = dict(form=form, objectives=objclass(len(ref)))
     try:
         h, mutated = run_impl(pts, ref, form)
+    except CaseTimeout:
+        raise
     except Exception as e:  # nothing may raise on an admissible case
         return dict(res, ok=False, clause="exception:" + type(e).__name__, sig=dict(clause="exception", exc=type(e).__name__, form=form, objectives=objclass(len(ref))),
                     detail="%s: %s" % (type(e).__name__, str(e)[:300]))
@@ -365,6 +380,8 @@ def gen_floats(count, maxn, maxm):
         for i in range(count):
             n = min(maxn, rng.choice([1, 2, 3, 5, 8, 13, 20, 30, 45, 60]))
             m = 1 + (i % maxm)
+            if m >= 6:  # beyond the stated 5 objectives: small sets only (cost of the model grows with n^(m-1))
+                n = min(n, 12)
             if tier == "search":
                 n = rng.randint(1, 6)
             kind = i % 3
@@ -506,7 +523,7 @@ def streams(tier):
         Stream("lattice", gen_lattice(plan), check_set, shrink_set, timeout=30),
         Stream("highdim_ties", gen_highdim(120000 if th else 15000), check_set, shrink_set, timeout=60),
         Stream("dyadic", gen_dyadic(3000 if th else 480, 30, 5), check_set, shrink_set, timeout=120),
-        Stream("floats", gen_floats(300 if th else 60, 60 if th else 30, 5), check_set, shrink_set, timeout=300),
+        Stream("floats", gen_floats(700 if th else 140, 60 if th else 30, 7), check_set, shrink_set, timeout=300),
         Stream("input_forms", gen_forms(800 if th else 160), check_set, shrink_set, timeout=30),
         Stream("recorder", gen_recorder(1500 if th else 200), check_recorder, shrink_rec, timeout=60),
     ]
